@@ -183,6 +183,7 @@ func (h *parserHarness) Run(t *testing.T, ci any) *Outcome {
 	accepted, rejectedBefore := 0, 0
 	var sig []string
 	for i, text := range c.Texts {
+		progressTick()
 		fresh, err := grammar.NewParser(grammar.SemanticBQL())
 		if err != nil {
 			return infra("NewParser: %v", err)
